@@ -267,7 +267,7 @@ class Flow(object):
 class FedSim(object):
     def __init__(self, scenario):
         self.sc = scenario
-        self.world = World(scenario["seed"])
+        self.world = World(scenario["seed"], scenario.get("tz"))
         self.truth = {s["name"]: copy.deepcopy(s) for s in scenario["nodes"]}
         self.views = copy.deepcopy(scenario.get("views") or {})
         self.nodes = {}
@@ -338,6 +338,8 @@ class FedSim(object):
         with self.world as w:
             for name, off in (self.sc.get("skew") or {}).items():
                 w.clock.skew(name, off)
+            if self.sc.get("tz"):
+                self.count("fault.local-time-zone")
             for name in self.truth:
                 self.build_node(name)
             for i, ev in enumerate(self.sc["events"]):
@@ -628,6 +630,10 @@ class FedSim(object):
             rec["error_msg"] = str(e)[:200]
             rec["tool"] = self.tool_slice(n0)
             self.count("aq_answer.error." + type(e).__name__)
+            try:
+                rec["refusal_expected"] = fed.expected_release(identity, self.sp_view(idp, req.message.issuer.text.strip()) or {})[2]
+            except Exception:
+                pass
             if not ev.get("tf") and not ev.get("_benign"):
                 ev2 = copy.deepcopy(ev)
                 ev2["_benign"] = True
@@ -645,7 +651,8 @@ class FedSim(object):
                                                                    "sp_name_qualifier": nid.sp_name_qualifier,
                                                                    "name_qualifier": nid.name_qualifier}),
                         "idp_now": idp_now, "sp_entity": ra["sp_entity_id"], "irt": ra["in_response_to"],
-                        "issuer": idp.entity_id, "signing_key": rec["signing_key"], "attribute_response": True}
+                        "issuer": idp.entity_id, "signing_key": rec["signing_key"], "attribute_response": True,
+                        "sp_view": self.sp_view(idp, ra["sp_entity_id"])}
         try:
             msg["xml"] = decode_value(http["data"], "soap")
         except Exception:
@@ -674,6 +681,13 @@ class FedSim(object):
               "destination": fed.sp_endpoints(sp_spec)["acs_post"]}
         rec = {"f": ev["f"], "idp": ev["idp"], "unsolicited": True}
         return self.make_response(ev, fl, idp, ra, rec)
+
+    def sp_view(self, idp, sp_entity_id):
+        """The spec of the SP with that entity id as the IdP node knows it (its metadata view)."""
+        for v in idp.peer_view.values():
+            if v.get("kind") == "sp" and fed.sp_entity(v) == sp_entity_id:
+                return {"req_attrs": v.get("req_attrs"), "opt_attrs": v.get("opt_attrs")}
+        return None
 
     def make_response(self, ev, fl, idp, ra, rec):
         """Honest or dialect composition of an authn response.  ev['p'] = answer parameters."""
@@ -732,6 +746,7 @@ class FedSim(object):
             rec["error"] = type(e).__name__
             rec["error_msg"] = str(e)[:200]
             rec["tool"] = self.tool_slice(n0)
+            rec["refusal_expected"] = fed.expected_release(identity, self.sp_view(idp, ra.get("sp_entity_id")) or {})[2]
             self.count("answer.error." + type(e).__name__)
             if not ev.get("tf") and not p.get("handover") and not ev.get("_benign"):
                 # differential probe: does the same request succeed with bland content?  Then the failure
@@ -753,7 +768,7 @@ class FedSim(object):
         msg["kind"] = "response"
         msg["answer"] = rec
         msg["asked"] = {"identity": identity, "p": p, "idp_now": idp_now, "sp_entity": ra.get("sp_entity_id"),
-                        "irt": ra.get("in_response_to"),
+                        "irt": ra.get("in_response_to"), "sp_view": self.sp_view(idp, ra.get("sp_entity_id")),
                         "issuer": ((p.get("dialect") or {}).get("resp_issuer") or idp.entity_id),
                         "signing_key": rec["signing_key"]}
         try:
@@ -833,6 +848,29 @@ class FedSim(object):
                 a.authn_statement[0].authn_instant = ts(0)
         sign_r, sign_a, enc = bool(p.get("sign_response")), bool(p.get("sign_assertion")), bool(p.get("encrypt"))
         sec = srv.sec
+        if d.get("signed_advice"):
+            # the attributes travel in an assertion of their own, signed, encrypted for the SP and carried in
+            # the Advice of the main assertion (what Entity._response does for advice assertions, with the
+            # signature that it only adds outside the PEFIM profile)
+            from saml2_tophat.saml import Advice, EncryptedAssertion
+            from saml2_tophat.samlp import response_from_string
+            adv_resp = srv.create_authn_response(identity, authn=authn, sign_response=False, sign_assertion=False,
+                                                 encrypt_assertion=False, release_policy=pol, **dict(ra, **kw))
+            adv = adv_resp.assertion[0] if isinstance(adv_resp.assertion, list) else adv_resp.assertion
+            a.attribute_statement = []
+            adv.signature = pre_signature_part(adv.id, sec.my_cert, 1, sign_alg=p.get("sigalg"),
+                                               digest_alg=p.get("digalg"))
+            a.advice = Advice()
+            holder = EncryptedAssertion()
+            holder.add_extension_element(adv)
+            a.advice.encrypted_assertion = [holder]
+            doc = signed_instance_factory("%s" % resp, sec, [(class_name(adv), adv.id)])
+            xp = "".join("/*[local-name()=\"%s\"]" % v for v in
+                         ["Response", "Assertion", "Advice", "EncryptedAssertion", "Assertion"])
+            doc = srv._encrypt_assertion(None, ra["sp_entity_id"], doc, node_xpath=xp)
+            resp = response_from_string(doc)
+            a = resp.assertion[0] if isinstance(resp.assertion, list) else resp.assertion
+            enc = False
         if not (sign_r or sign_a or enc):
             return resp
         if sign_a:
@@ -870,7 +908,9 @@ class FedSim(object):
             for f in plan:
                 if f["op"] != inv["op"]:
                     continue
-                if f.get("ord", "all") == "all" or f["ord"] == inv["ord"]:
+                o = f.get("ord", "all")
+                # "all", one ordinal, or "N+" = the N-th invocation of that operation and every later one
+                if o == "all" or o == inv["ord"] or (isinstance(o, str) and o.endswith("+") and inv["ord"] >= int(o[:-1])):
                     self.count("tf.%s.%s" % (inv["op"], f["mode"]))
                     return {"mode": f["mode"], "variant": f.get("variant", 0)}
             return None
